@@ -783,6 +783,15 @@ func (g *Gen) evalCall(env *Env, x *ECall) Val {
 			oldSt = g.entry
 		}
 		return Val{T: bt, S: fmt.Sprintf("(and (>= %s %s) (< %s %s) (= (ref.root %s) %s))", ref, g.heapGet(oldSt, "$alloc"), ref, g.heapGet(env.st, "$alloc"), ref, ref)}
+	case "allocated":
+		// allocated(x): the object x refers to exists in the state the expression is evaluated in (a well-typed heap
+		// holds only such references); lets a contract separate existing objects from ones allocated later
+		v := g.eval(env, x.Args[0])
+		ref := v.S
+		if v.sort(g) == "Slice" {
+			ref = "(sl.ref " + v.S + ")"
+		}
+		return Val{T: bt, S: fmt.Sprintf("(< %s %s)", ref, g.heapGet(env.st, "$alloc"))}
 	case "nonnil":
 		var parts []string
 		for _, a := range x.Args {
